@@ -106,5 +106,19 @@ CHECKS["C11"] = {
     "technique": "explicit-state model checking of the implementation (BFS to fixpoint over raw container states) plus throw-point enumeration for resize",
 }
 
+CHECKS["C17"] = {
+    "engine": "E2-history-explorer",
+    "category": "model_checking",
+    "text": "(A) BFS over registration/erasure histories of functor_dispatcher over basic_dispatcher (dynamic and static casting) and basic_fast_dispatcher with 1, 2 and 3 dispatched arguments and an undispatched extra "
+            "argument: every history is replayed on a fresh dispatcher after resetting the per-class static indices, so registration order decides the lazily assigned class indices and the shape of the nested tables; "
+            "after every transition dispatch is called on ALL argument tuples and judged against the handler map (exact handler, argument identity and order, extra argument by identity; error and no handler for every "
+            "unregistered tuple). 1-argument dispatchers run to fixpoint, 2- and 3-argument ones to a depth bound. (B) static_dispatcher is instantiated for every pair of ordered sub-lists of the type list (antisymmetric) "
+            "and every sub-list (symmetric) and run on all 9 argument pairs. (C) acyclic visitors for every subset of handled types x visited type x catch-all policy x constness, and the cyclic visitor.",
+    "design_ref": "DESIGN.md section 3, C17",
+    "note": "Trusted: the handler-map model. Bounds: hierarchy of 3 leaf classes, handlers {h1,h2}, histories of length <= 4 (quick) / 5 (thorough, state cap) for 2 arguments and 2-4 for 3 arguments. "
+            "One fast dispatcher per hierarchy, as the quantifier says.",
+    "technique": "stateless model checking over registration histories (replay on a fresh dispatcher, all argument tuples judged after every transition) plus exhaustive enumeration of generated instantiations",
+}
+
 NOT_YET = "check not built yet in this round; design in DESIGN.md section 3"
 NOT_APPLICABLE = {}
